@@ -38,7 +38,15 @@ LEVEL_NOTE = ("floating-point rounding not modelled (rel 1e-9, exit points abs 1
               "(the exactly vertical direction divides by zero in the source - IEEE vs Lean semantics differ -, boundary "
               "vertices and grazing tangency are left to the correspondence run); C13_box_exit_total is proved at full strength; a vertex exactly on the "
               "cylinder SIDE surface makes get_exit_points raise in about half of the directions (K18, reachable only when "
-              "dr*sqrt(u) rounds to dr); the "
+              "dr*sqrt(u) rounds to dr); hypothesis audit: "
+              "the exactly vertical direction is answered CORRECTLY by the real code (IEEE inf + cap override) - only the R-"
+              "reading cannot carry the proof, hence the guard d.x!=0 or d.y!=0 on C13_cyl_exit_brackets_vertex_partial; a zero "
+              "direction is rejected with ValueError (theorems C13_box_exit_zero_direction / C13_cyl_exit_zero_direction, "
+              "exception type demanded by the harness); vertices outside the volume, non-positive dimensions, flavour ratios "
+              "summing to 0 (nan ratios, always tau) and an undefined source (ValueError) are outside the property's quantifier; "
+              "ListGenerator([]) with loop=True raises ZeroDivisionError and still increments count (observation, compared with "
+              "the model); 1000 consecutive shadow rejections would exceed Python's recursion limit (probability < 0.6^990 at "
+              "1e12 GeV); the model's `fuel` is the tape length and never binds; the "
               "survival weight inherits the exit-node ambiguity of slant_depth (C15): the run accepts either value and "
               "skips shadow decisions within 1e-3 of the threshold; KS tests only in the thorough search (p=1e-6)")
 ASSUMPTIONS = ["np.random.uniform(low, high) = low + (high-low)*u elementwise", "np.linalg.norm, np.sum by specification"]
@@ -94,7 +102,8 @@ def boundary_vertex(rng, vol):
 
 
 def draw_direction(rng, vol, v):
-    kind = rng.choice(["iso", "iso", "iso", "axis", "plane", "vertical", "grazing", "xzero", "tiny", "tinyxy"])
+    kind = rng.choice(["iso", "iso", "iso", "iso", "axis", "plane", "vertical", "vertical", "grazing", "xzero", "tiny",
+                       "tinyxy", "zero"])
     if kind == "iso":
         d = [rng.gauss(0, 1) for _ in range(3)]
     elif kind == "axis":
@@ -114,6 +123,8 @@ def draw_direction(rng, vol, v):
         else:                      # nearly along an edge
             d = [1.0, 10 ** rng.uniform(-12, -3) * rng.choice([-1, 1]), 10 ** rng.uniform(-12, -3) * rng.choice([-1, 1])]
             rng.shuffle(d)
+    elif kind == "zero":       # no direction at all: both generators must raise ValueError
+        d = [0.0, 0.0, 0.0]
     elif kind == "xzero":
         d = [0.0, rng.gauss(0, 1), rng.gauss(0, 1)]
     elif kind == "tinyxy":     # a horizontal component that is tiny but NOT zero (general branch of the cylinder code)
@@ -130,11 +141,14 @@ def base_particle(v, d, E=1e9):
 
 
 def exit_impl(gen, p):
+    """exit points; None = the documented ValueError; any other exception is returned as text (never swallowed)"""
     try:
         a, b = gen.get_exit_points(p)
         return [float(x) for x in a] + [float(x) for x in b]
     except ValueError:
         return None
+    except Exception as e:      # noqa: BLE001
+        return "EXC %s: %s" % (type(e).__name__, str(e)[:100])
 
 
 def vol_size(vol):
@@ -283,7 +297,9 @@ def correspondence(run):
             vol, v, d, kind, impl = arg
             run.case(("exit", rq), nontrivial=kind not in ("vertical",), sample={"volume": vol, "vertex": v, "direction": d, "impl": impl})
             run.count("exit_" + vol[0] + "_" + kind)
-            if impl is None or rp == "none":
+            if isinstance(impl, str):
+                good = False
+            elif impl is None or rp == "none":
                 run.count("exit_none")
                 good = (impl is None) == (rp == "none")
             else:
@@ -373,8 +389,10 @@ def list_impl(n, loop, ops):
             try:
                 e = gen.create_event()
                 out.append(str([id(x) for x in evs].index(id(e))))
-            except (StopIteration, ZeroDivisionError):
+            except StopIteration:
                 out.append("stop")
+            except ZeroDivisionError:
+                out.append("zerodiv")
         elif op == "q":
             out.append("q%d" % gen.count)
         else:
@@ -426,6 +444,13 @@ def check_exit(run, vol, v, d, kind):
     res = exit_impl(gen, p)
     inp = {"volume": list(vol), "vertex": list(v), "direction": list(d)}
     size = vol_size(vol)
+    if isinstance(res, str):
+        run.fail_input("exit-points", inp, observed=res, what="get_exit_points raised something else than the documented ValueError")
+        return
+    if kind.startswith("zero"):
+        if res is not None:
+            run.fail_input("exit-points", inp, observed=res, what="a zero direction must be rejected with ValueError, not answered")
+        return
     if res is None:
         # generic position must give points; degenerate directions (tangency, rounding at an edge) may not
         if kind in ("iso", "axis", "plane", "vertical", "xzero", "tinyxy"):
@@ -524,8 +549,8 @@ def check_event(run, cfg):
     gen, ev, err, tape, passes = run_event(run, cfg)
     inp = {"config": {k: (list(cfg[k]) if isinstance(cfg[k], tuple) else cfg[k]) for k in cfg}, "uniforms": tape.us, "poisson": tape.ks}
     if ev is None:
-        if "OverflowError" in (err or ""):
-            return
+        if "OverflowError" in (err or "") and 0.0 in tape.us:
+            return              # K14 (C14): a draw of exactly 0.0
         run.fail_input("event", inp, observed=err, what="create_event raised")
         return
     p = ev.roots[0]
@@ -607,7 +632,7 @@ def check_fresh_draws(run, cfg, energies, inject=None):
     inp = {"config": {k: (list(cfg[k]) if isinstance(cfg[k], tuple) else cfg[k]) for k in cfg if k != "E"},
            "energies": list(energies), "uniforms": list(tape.us)}
     if ev is None:
-        if "OverflowError" not in (err or ""):
+        if not ("OverflowError" in (err or "") and 0.0 in tape.us):
             run.fail_input("fresh-draws", inp, observed=err, what="create_event raised")
         return 0
     adv = gen.count - c0
